@@ -287,8 +287,21 @@ impl NaturalRange {
     where
         F: FnMut(NaturalBound, NaturalBound) -> NaturalBound,
     {
+        // An unbounded lower bound is zero (whereas an unbounded upper bound is infinite), so it
+        // must be the identity in sums and the annihilator in products.
+        fn zero_if_unbounded(bound: NaturalBound) -> NaturalBound {
+            match bound {
+                Variance::Variant(Unbounded) => Variance::Invariant(Zero),
+                bound => bound,
+            }
+        }
+
         let lhs = self;
-        let lower = f(lhs.lower().into_bound(), rhs.lower().into_bound()).into_lower();
+        let lower = f(
+            zero_if_unbounded(lhs.lower().into_bound()),
+            zero_if_unbounded(rhs.lower().into_bound()),
+        )
+        .into_lower();
         let upper = f(lhs.upper().into_bound(), rhs.upper().into_bound()).into_upper();
         Self::from_closed_and_open(lower.into_usize(), upper.into_usize())
     }
